@@ -401,6 +401,117 @@ def check_dependency_registration(model, rep, rule='R02.9'):
            'the dependency edge origin -> evaluable is recorded only on a cache miss (or not at all): a constant intermediate consumed a second time is neither cached nor recomputed on reruns', statement='edge-before-lookup')
 
 
+# --- R02.10: einsum labels and axis positions are different kinds of integers -------------------------------------------
+
+POS, LAB = 'position', 'label'
+
+
+def _kind(e, env):
+    """kind of an expression in the Einsum-fusing rules: POS | LAB | ('seq', kind) | ('seq', ('seq', LAB)) | None"""
+    t = src(e)
+    if isinstance(e, ast.Name):
+        return env.get(e.id)
+    if isinstance(e, ast.Attribute):
+        if e.attr == 'out_idx':
+            return ('seq', LAB)
+        if e.attr == 'args_idx':
+            return ('seq', ('seq', LAB))
+        if e.attr == 'axes':
+            return ('seq', POS)
+        if e.attr == 'ndim':
+            return POS
+    if isinstance(e, ast.Subscript):
+        base = _kind(e.value, env)
+        if isinstance(base, tuple) and base[0] == 'seq':
+            return base if isinstance(e.slice, ast.Slice) else base[1]
+        return None
+    if isinstance(e, ast.BinOp):
+        a, b = _kind(e.left, env), _kind(e.right, env)
+        if isinstance(a, tuple) and a == b:
+            return a
+        if a in (POS, LAB) and (b is None or b == a or isinstance(e.right, (ast.Compare, ast.Constant))):
+            return a
+        return a or b
+    if isinstance(e, ast.Call):
+        n = src(e.func)
+        if n in ('range',):
+            return ('seq', POS)
+        if n in ('list', 'tuple') and e.args:
+            return _kind(e.args[0], env)
+    if isinstance(e, (ast.ListComp, ast.GeneratorExp)):
+        env2 = dict(env)
+        for g in e.generators:
+            k = _kind(g.iter, env2)
+            if isinstance(k, tuple) and k[0] == 'seq' and isinstance(g.target, ast.Name):
+                env2[g.target.id] = k[1]
+        k = _kind(e.elt, env2)
+        return ('seq', k) if k else None
+    if isinstance(e, ast.IfExp):
+        a, b = _kind(e.body, env), _kind(e.orelse, env)
+        return a if a == b else (a or b)
+    return None
+
+
+def check_label_position_typing(model, rep):
+    targets = ['evaluable:Sum._optimized_for_numpy', 'evaluable:TakeDiag._optimized_for_numpy', 'evaluable:Einsum._optimized_for_numpy']
+    ncmp = 0
+    for key in targets:
+        f = model.func(key)
+        env = {}
+        # two passes to propagate through straight-line assignments and loops
+        for _ in range(3):
+            for s in ast.walk(f.node):
+                if isinstance(s, ast.Assign):
+                    t = s.targets[0]
+                    k = _kind(s.value, env)
+                    if isinstance(t, ast.Name) and k:
+                        env[t.id] = k
+                    elif isinstance(t, ast.Tuple) and isinstance(k, tuple) and k[0] == 'seq':
+                        for x in t.elts:
+                            if isinstance(x, ast.Name):
+                                env[x.id] = k[1]
+                elif isinstance(s, (ast.For, ast.comprehension)):
+                    k = _kind(s.iter, env)
+                    tg = s.target
+                    if isinstance(k, tuple) and k[0] == 'seq':
+                        if isinstance(tg, ast.Name):
+                            env[tg.id] = k[1]
+                    if isinstance(s.iter, ast.Call) and src(s.iter.func) == 'enumerate' and isinstance(tg, ast.Tuple) and len(tg.elts) == 2:
+                        env[tg.elts[0].id] = None
+        problems = []
+        for n in ast.walk(f.node):
+            # comprehension scopes: bind their targets before judging the comparisons inside
+            if isinstance(n, (ast.ListComp, ast.GeneratorExp, ast.SetComp)):
+                env2 = dict(env)
+                for g in n.generators:
+                    k = _kind(g.iter, env2)
+                    if isinstance(k, tuple) and k[0] == 'seq' and isinstance(g.target, ast.Name):
+                        env2[g.target.id] = k[1]
+                scope_env = env2
+            else:
+                continue
+            for c in ast.walk(n):
+                if isinstance(c, ast.Compare) and len(c.ops) == 1 and isinstance(c.ops[0], (ast.Eq, ast.NotEq, ast.Gt, ast.Lt, ast.GtE, ast.LtE)):
+                    a, b = _kind(c.left, scope_env), _kind(c.comparators[0], scope_env)
+                    if a in (POS, LAB) and b in (POS, LAB):
+                        ncmp += 1
+                        if a != b:
+                            problems.append((c, a, b))
+                if isinstance(c, ast.Subscript) and not isinstance(c.slice, ast.Slice):
+                    base = _kind(c.value, scope_env)
+                    ik = _kind(c.slice, scope_env)
+                    if isinstance(base, tuple) and base[0] == 'seq' and ik == LAB and src(c.value).endswith(('out_idx', 'axes')):
+                        problems.append((c, 'index by label', ''))
+        if problems:
+            for c, a, b in problems:
+                rep.ob('R02.10', f.key, f.where(c), False, f'`{src(c)}` mixes an einsum {a} with an axis {b}: labels and positions coincide only for an Einsum fresh from a Multiply, not after a Sum was folded into it',
+                       statement=f'mixes {src(c)}')
+        else:
+            rep.ob('R02.10', f.key, f.where(), True, 'einsum labels are only compared with labels and axis positions with positions', statement='label/position typing')
+    if ncmp < 3:
+        raise AnalysisError(f'label/position typing recognised only {ncmp} comparisons')
+
+
 def run(model, rep, tier):
     rep.explanation = (
         'R02.1 def-use of every emitted in-place operation (array_fill_zeros/add_at/iadd/imul/copy and destinations handed to compile_with_out): the destination is the out parameter, a view of it, '
@@ -419,6 +530,7 @@ def run(model, rep, tier):
     rep.rule('R02.7', '_compile_expression arity equals the number of dependencies')
     rep.rule('R02.8', 'parallel configuration: shared allocation / lock pairing (= R16.4)')
     rep.rule('R02.9', 'dependency edges are recorded before the compiled-cache lookup')
+    rep.rule('R02.10', 'einsum labels and axis positions are never compared with or indexed by each other (kind typing)')
     check_destinations(model, rep)
     check_zero_fill(model, rep)
     check_who_may_call(model, rep)
@@ -427,6 +539,7 @@ def run(model, rep, tier):
     check_fields_announced(model, rep)
     check_expression_arity(model, rep)
     check_dependency_registration(model, rep)
+    check_label_position_typing(model, rep)
     from rules.c16 import check_shared_alloc
     from rules.c03 import _Rename
     check_shared_alloc(model, _Rename(rep, {'R16.4': 'R02.8'}))
